@@ -1,7 +1,7 @@
 (* C20 — property theorems only.  Bodies live in Proofs.v / SortProofs.v. *)
 From Coq Require Import Sorting.Permutation Sorting.Sorted.
 From EsVerif.Common Require Import Base.
-From EsVerif.C20 Require Import Model Model2 Spec Proofs SortProofs Proofs2 Exec History Checkers Meter Gen Tie.
+From EsVerif.C20 Require Import Model Model2 Spec Proofs SortProofs Proofs2 Exec History Checkers Meter Opaque Gen Tie.
 
 (* The in-place sorts leave a non-decreasing permutation of their input, key-value pairs kept
    together; the recursion always terminates within the model's fuel. *)
@@ -257,6 +257,24 @@ Theorem C20_status_line_shows_last : forall (A : Type) (blank : A) ss s,
   exists k, fst (run_status blank [] 0 (ss ++ [s])) = s ++ repeat blank k.
 Proof. exact @status_line_shows_last. Qed.
 
+(* ======================================================================================================
+   Values of the key-value sort are opaque payloads: moved, never inspected. *)
+(* naturality: any key-preserving map on the records commutes with the sort *)
+Theorem C20_sort_natural : forall (A A' : Type) (key : A -> Z) (key' : A' -> Z) (g : A -> A') (dflt : A),
+  (forall a, key' (g a) = key a) ->
+  forall d, quicksort_gen key' (g dflt) (map g d) = option_map (map g) (quicksort_gen key dflt d).
+Proof. exact @quicksort_gen_natural. Qed.
+
+(* relabelling the values, into ANY payload type (no order, no equality needed), commutes with the key-value sort *)
+Theorem C20_keyvalue_payloads_opaque : forall (B C : Type) (g : B -> C) (db : B) (kv : list (Z * B)),
+  quicksort_gen fst (0, g db) (map (relabel g) kv) = option_map (map (relabel g)) (quicksort_gen fst (0, db) kv).
+Proof. exact @keyvalue_payloads_opaque. Qed.
+
+(* the keys of the result are the plain quicksort of the keys alone *)
+Theorem C20_keyvalue_keys_sorted_alone : forall (B : Type) (db : B) (kv : list (Z * B)),
+  option_map (map fst) (quicksort_gen fst (0, db) kv) = quicksort (map fst kv).
+Proof. exact @keyvalue_keys_sorted_alone. Qed.
+
 Definition task_exn_demo (x : Z) : result Z := if x =? 4 then Err EValue else if x =? 5 then Err EKey else Ok (x * x).
 
 (* Non-vacuity: concrete non-trivial instances meet the hypotheses and the conclusions compute. *)
@@ -288,3 +306,11 @@ Example C20_nonvacuous3 :
   /\ prints_check 5 true (Some 3) [(0, Some 3); (2, Some 3); (5, None)] = true
   /\ sort_check [2; 1; 2] [1; 2; 2] = true.
 Proof. repeat split; reflexivity. Qed.
+
+(* payloads without any order (functions): tied keys, the sort goes through *)
+Example C20_nonvacuous4 :
+  option_map (map (fun p => (fst p, snd p 1))) (quicksort_gen fst (0, fun x : Z => x) [(2, Z.add 10); (1, Z.mul 3); (2, Z.sub 7); (1, Z.add 5)])
+  = Some [(1, 6); (1, 3); (2, 6); (2, 11)]
+  /\ quicksort_keyvalue (map (relabel (fun v => 2 * v)) [(2, 100); (1, 101); (2, 102); (0, 103); (1, 104)])
+     = option_map (map (relabel (fun v => 2 * v))) (quicksort_keyvalue [(2, 100); (1, 101); (2, 102); (0, 103); (1, 104)]).
+Proof. split; reflexivity. Qed.
